@@ -12,6 +12,7 @@ import (
 	"github.com/basecomplextech/spec/internal/decode"
 	"github.com/basecomplextech/spec/internal/encode"
 	"github.com/basecomplextech/spec/internal/format"
+	"github.com/basecomplextech/spec/internal/types"
 )
 
 func RoundTripBool(b buffer.Buffer, v bool) (bool, int, int, error) {
@@ -174,4 +175,53 @@ func NarrowFloat64To32(b buffer.Buffer, v float64) (float32, int, int, error) {
 	n, _ := encode.EncodeFloat64(b, v)
 	r, m, err := decode.DecodeFloat32(b.Bytes())
 	return r, n, m, err
+}
+
+// MessageOneFieldInt32 composes the format-level pieces of C01 for the smallest message: one
+// int32 field encoded with the encoders (value, then table + trailer), opened with the table
+// decoder, found by tag with the binary search, sliced and decoded.
+func MessageOneFieldInt32(b buffer.Buffer, tag uint16, v int32) (int32, error) {
+	b.Reset()
+	n, err := encode.EncodeInt32(b, v)
+	if err != nil {
+		return 0, err
+	}
+	table := []format.MessageField{{Tag: tag, Offset: uint32(n)}}
+	if _, err := encode.EncodeMessageTable(b, n, table); err != nil {
+		return 0, err
+	}
+	m, err := types.OpenMessageErr(b.Bytes())
+	if err != nil {
+		return 0, err
+	}
+	r, _, err := decode.DecodeInt32(m.FieldRaw(tag))
+	return r, err
+}
+
+// MessageTwoFields: two fields (int32 under tag t1, int64 under tag t2, t1 < t2), the second value
+// is found as the suffix of the data prefix that ends at its offset.
+func MessageTwoFields(b buffer.Buffer, t1, t2 uint16, v1 int32, v2 int64) (int32, int64, error) {
+	b.Reset()
+	n1, err := encode.EncodeInt32(b, v1)
+	if err != nil {
+		return 0, 0, err
+	}
+	n2, err := encode.EncodeInt64(b, v2)
+	if err != nil {
+		return 0, 0, err
+	}
+	table := []format.MessageField{{Tag: t1, Offset: uint32(n1)}, {Tag: t2, Offset: uint32(n1 + n2)}}
+	if _, err := encode.EncodeMessageTable(b, n1+n2, table); err != nil {
+		return 0, 0, err
+	}
+	m, err := types.OpenMessageErr(b.Bytes())
+	if err != nil {
+		return 0, 0, err
+	}
+	r1, _, err := decode.DecodeInt32(m.FieldRaw(t1))
+	if err != nil {
+		return 0, 0, err
+	}
+	r2, _, err := decode.DecodeInt64(m.FieldRaw(t2))
+	return r1, r2, err
 }
